@@ -565,6 +565,36 @@ Fixpoint be4_all (l : list Z) : option (list Z) :=
       end
   | _ => None
   end.
+(* the deprecated version-1 packing (decode only; files written by older versions): no version word,
+   | u32 length of data | data | u32 length of the offsets in BYTES | u32 start offset of every string | *)
+Fixpoint starts (o : Z) (ss : list (list Z)) : list Z :=
+  match ss with [] => [] | s :: r => o :: starts (o + len s) r end.
+Definition pack_strings_v1 (ss : list (list Z)) : list Z :=
+  let data := concat ss in
+  be 4 (len data) ++ data ++ be 4 (4 * len ss) ++ flat_map (fun o => be 4 o) (starts 0 ss).
+Fixpoint diffs_from (o : Z) (offs : list Z) : list Z :=
+  match offs with
+  | [] => []
+  | o2 :: r => (o2 - o) :: diffs_from o2 r
+  end.
+Definition unpack_strings_v1 (bs : list Z) : option (list (list Z)) :=
+  match get_be 4 bs with
+  | Some (n, r) =>
+      if len r <? n + 4 then None else
+      let data := firstn (Z.to_nat n) r in
+      match get_be 4 (skipn (Z.to_nat n) r) with
+      | Some (offLen, r3) =>
+          if len r3 <? offLen then None else
+          match be4_all (firstn (Z.to_nat (4 * (offLen / 4))) r3) with
+          | Some [] => Some []
+          | Some (o :: offs) => Some (split_by (diffs_from o offs) (skipn (Z.to_nat o) data))
+          | None => None
+          end
+      | None => None
+      end
+  | None => None
+  end.
+
 Definition unpack_strings (bs : list Z) : option (list (list Z)) :=
   match get_be 4 bs with
   | Some (ver, r) =>
@@ -584,6 +614,7 @@ Definition unpack_strings (bs : list Z) : option (list (list Z)) :=
             end
         | None => None
         end
+      else if ver <? g_str_end then unpack_strings_v1 bs      (* a length, not a version word: version 1 *)
       else None
   | None => None
   end.
@@ -633,6 +664,10 @@ Section StringBlock.
         end
     end.
 End StringBlock.
+
+(* a version-1 packing in the uncompressed container (what an older writer stored) *)
+Definition string_block_v1 (ss : list (list Z)) : list Z :=
+  let src := pack_strings_v1 ss in [16 * g_str_raw] ++ be 4 (len src) ++ be 4 (len src) ++ src.
 
 (* ================= WAL record frame (engine/wal.go writeBinary / replayPhysicRecord) ================= *)
 Section Frame.
